@@ -162,6 +162,9 @@ let () =
   register "geta" (function [p; k] ->
       (match get_field !cur_be !cur_buf (the_msg ()) !cur_base (parse_path p) (nat_of_int (int_of_string k)) with
        | Some bs -> hex_of_bytes bs | None -> oob) | _ -> failwith "geta");
+  register "getar" (function [p; k] ->
+      (match get_field !cur_be !cur_buf (the_msg ()) !cur_base (parse_path p) (nat_of_int (int_of_string k)) with
+       | Some bs -> hex_of_bytes bs | None -> oob) | _ -> failwith "getar");
   register "setf" (function [p; k; pr; v] ->
       let pr = prim_of_string pr in
       let bs = enc !cur_be (prim_size pr) (to_raw pr (z_of_string v)) in
